@@ -26,16 +26,20 @@ theorem growLoop_sat {m lvl : Nat} (E : Env) (height : Nat) (nd : MNode) :
     intro i start ks vs ls
     obtain ⟨k, v⟩ := e
     unfold growLoop
+    apply Sat.bind (layerM_sat E k)
+    intro lay
     split
-    · exact ih _ _ _ _ _
-    · apply Sat.bind (extractLink_sat nd start i (fun s _ h => h.1))
+    · exact (ih _ _ _ _ _).conseq (Nat.le_refl _)
+        (fun s _ h => ⟨h.2.and_left.linksVis, h.2.and_right.linksVis⟩) (fun _ _ _ h => h)
+    · apply Sat.bind (extractLink_sat nd start i (fun s _ h => h.2.and_left.linksVis))
       intro l
       apply (ih _ _ _ _ _).conseq (Nat.le_refl _) ?_ (fun _ _ _ h => h)
       intro s _ ⟨hq, hw⟩
-      refine ⟨hw.and_left.linksVis, ?_⟩
+      have hw' := hw.and_right.was
+      refine ⟨hw'.and_left.linksVis, ?_⟩
       intro x hx
       rcases List.mem_append.mp hx with h | h
-      · exact hw.and_right.linksVis x h
+      · exact hw'.and_right.linksVis x h
       · simp at h; subst h; exact hq
 
 theorem grow_sat {lvl : Nat} (E : Env) (t : PTree) :
@@ -65,6 +69,19 @@ theorem grow_sat {lvl : Nat} (E : Env) (t : PTree) :
       · exact (hw.and_left).linksVis l h
       · simp at h; subst h; exact hq
 
+theorem canGrowM_sat {m lvl : Nat} {P : PS → Prop} (E : Env) (h : Nat) : ∀ (ks : List Nat),
+    Sat m lvl P (canGrowM E h ks) (fun _ _ => True) := by
+  intro ks
+  induction ks generalizing P with
+  | nil => unfold canGrowM; exact Sat.pure (fun _ _ _ => trivial)
+  | cons k ks ih =>
+    unfold canGrowM
+    apply Sat.bind (layerM_sat E k)
+    intro lay
+    split
+    · exact Sat.pure (fun _ _ _ => trivial)
+    · exact ih
+
 theorem growAll_sat {m lvl : Nat} (E : Env) : ∀ (f : Nat) (t : PTree), t.id = m →
     Sat m lvl (fun s => Vis s.heap m t.root) (growAll E f t)
       (fun t' s' => Vis s'.heap m t'.root ∧ t'.id = m) := by
@@ -81,12 +98,14 @@ theorem growAll_sat {m lvl : Nat} (E : Env) : ∀ (f : Nat) (t : PTree), t.id = 
       intro a
       apply Sat.bind (read_sat a)
       intro nd
+      apply Sat.bind (canGrowM_sat E t.height nd.keys)
+      intro cg
       split
-      · apply Sat.bind ((grow_sat E t).conseq (Nat.le_refl _) (fun s _ h => h.2.and_right.was.vis) (fun _ _ _ h => h))
+      · apply Sat.bind ((grow_sat E t).conseq (Nat.le_refl _) (fun s _ h => h.2.and_right.was.and_right.was.vis) (fun _ _ _ h => h))
         intro t'
         intro s hinv hp
         exact (ih t' hp.1.2) s hinv hp.1.1
-      · exact Sat.pure (fun _ _ h => ⟨h.2.and_right.was.vis, rfl⟩)
+      · exact Sat.pure (fun _ _ h => ⟨h.2.and_right.was.and_right.was.vis, rfl⟩)
 
 theorem mergeNodes_sat {m lvl : Nat} (E : Env) : ∀ (f : Nat) (l r : HLink),
     Sat m lvl (fun s => Vis s.heap m l ∧ Vis s.heap m r) (mergeNodes E m f l r) (fun x s' => Vis s'.heap m x) := by
@@ -143,8 +162,10 @@ theorem deletePlan_sat {lvl : Nat} (E : Env) (t : PTree) (fuel key val : Nat) :
   unfold deletePlan
   split
   · exact Sat.fail
-  · dsimp only
-    apply Sat.bind (load_sat E t.root)
+  · apply Sat.bind (layerM_sat E key)
+    intro lay
+    dsimp only
+    apply Sat.bind ((load_sat E t.root).conseq (Nat.le_refl _) (fun _ _ h => h.2.vis) (fun _ _ _ h => h))
     intro a0
     apply Sat.bind ((findNode_sat E key _ false fuel a0 t.height []).conseq (Nat.le_refl _)
       (fun s _ h => ⟨h.1, fun p hp => by simp at hp⟩) (fun fd s _ (h : FoundOK s.heap t.id fd) => h))
